@@ -304,6 +304,7 @@ func c03Views(c *fw.Ctx, i int) {
 	var err error
 	var ids []uint8
 	vals := map[uint8][]byte{}
+	absentID, absentVal := -1, []byte(nil)
 	var mb, mt []byte
 	var msz, mtn int
 	var merr, mterr error
@@ -315,6 +316,31 @@ func c03Views(c *fw.Ctx, i int) {
 		ids = view.GetIDs()
 		for _, e := range p.Elems {
 			vals[e.ID] = view.Get(e.ID)
+		}
+		// ids the block does not hold: ids that differ from a held one by a multiple of 16, neighbours, 0, 15, 255
+		if p.ExtKind != ref.ExtLegacy && (l == nil || !l.Terminator) {
+			// (blocks with an id-15 terminator are left out: what the one-byte view's Get does with an id that is not there, once it has
+			// walked past the terminator into the bytes behind it, is no "id or value of the block" - it returns those bytes or panics,
+			// see DESIGN 8.3)
+			held := map[uint8]bool{}
+			for _, e := range p.Elems {
+				held[e.ID] = true
+			}
+			var probe []uint8
+			for _, e := range p.Elems {
+				probe = append(probe, e.ID+16, e.ID+32, e.ID+128, e.ID-16, e.ID+1, e.ID-1)
+			}
+			probe = append(probe, 0, 16, 17, 255, uint8(r.Intn(256)))
+			for _, id := range probe {
+				if p.ExtKind == ref.ExtOneByte && id&0x0F == 15 && id < 16 {
+					continue // id 15 is the reserved terminator of the one-byte form, not an id a block can hold: asking for it is not judged
+				}
+				if !held[id] {
+					if v := view.Get(id); len(v) != 0 {
+						absentID, absentVal = int(id), append([]byte(nil), v...)
+					}
+				}
+			}
 		}
 		msz = view.MarshalSize()
 		mb, merr = view.Marshal()
@@ -331,6 +357,10 @@ func c03Views(c *fw.Ctx, i int) {
 	}
 	if err != nil {
 		c.Fail("C03/view/"+kind+"/unmarshal-rejects", "the view rejects a well-formed block of its profile: "+err.Error(), wit())
+		return
+	}
+	if absentID >= 0 {
+		c.Fail("C03/view/"+kind+"/get-of-an-absent-id-returns-a-value", fmt.Sprintf("Get(%d) returns %s although the block holds no element with that id", absentID, fw.Hex(absentVal)), wit())
 		return
 	}
 	if n != len(block) {
